@@ -3,7 +3,7 @@ CONSTANT G = 3
 CONSTANT LOGN = 2
 CONSTANT MUT = "none"
 CONSTANT MODE = "corrupt"
-CONSTANT SIDS = {1, 2, 3, 4, 5, 6}
+CONSTANT SIDS = {1, 3, 4, 5, 6, 8}
 CONSTANT FREEVALS = {1, 5}
 CONSTANT DELTAS = {1, 16}
 CONSTANT VALS = {0, 1, 2}
